@@ -898,7 +898,7 @@ class Rewriter:
                         pieces.append(('pad2', arg))
                         k = e + 1
                         continue
-                    elif re.match(r'^:0[3-9]$', inner) or re.match(r'^:\.[0-9]+$', inner):
+                    elif re.match(r'^:0[3-9]$', inner) or re.match(r'^:\.[0-9]+$', inner) or inner == ':?':
                         # zero padding to another width / fixed decimals: the rendering is left uninterpreted
                         if ai >= len(args):
                             ok = False; break
